@@ -1059,11 +1059,167 @@ def forkboundary_family(ctx, st):
                     "(NewBlockHeaderInfoFromPrevBlock, MakeChainId, NewBlock), parent snapshotted before and after each child; short chain ids")
 
 
-EXTRA_FAMILIES = [corpus_family, receipts_family, merkle_family, hardfork_family, txsign_family, chainid_family, txroot_family, genesis_family, genesis_store_family, forkboundary_family]
-EXTRA_TARGETS = ["Common/Sha256.vo", "Common/Lit.vo", "Codec/Receipt.vo", "Codec/Merkle.vo", "Codec/Hardfork.vo", "Codec/TxRoot.vo", "Codec/GenesisStore.vo"]  # evaluated models that no theorem depends on
+# ------------------------------------------------------------------ blocks, txs, receipts, hardfork config through the real ChainDB
+def vs_receipt(r):
+    return {"Addr": r["addr"].hex(), "Status": r["status"], "Ret": r["ret"].hex(), "TxHash": r["txhash"].hex(), "Fee": r["fee"].hex(),
+            "CumFee": r["cumfee"].hex(), "Bloom": r["bloom"].hex(), "GasUsed": r["gas"], "FeeDeleg": r["feedeleg"],
+            "Events": [{"Addr": e["addr"].hex(), "Name": e["name"].hex(), "Args": e["args"].hex(), "Idx": e["idx"]} for e in r["events"]]}
+
+
+def vs_receipt_back(j):
+    return {"addr": hb(j["Addr"]), "status": j["Status"], "ret": hb(j["Ret"]), "txhash": hb(j["TxHash"]), "fee": hb(j["Fee"]),
+            "cumfee": hb(j["CumFee"]), "bloom": hb(j["Bloom"]), "gas": j["GasUsed"], "feedeleg": j["FeeDeleg"],
+            "events": [{"addr": hb(e["Addr"]), "name": hb(e["Name"]), "args": hb(e["Args"]), "idx": e["Idx"], "txhash": b"", "blockhash": b"",
+                        "blockno": 0, "txindex": 0} for e in j["Events"]]}
+
+
+def store_family(ctx, st):
+    rng = ctx.rng
+    quick = ctx.tier == "quick"
+    rc, log, binpath = ctx.go_test_binary("chain", [os.path.join(ENG, "zz_verif_genesis_engine_test.go"),
+                                                    os.path.join(ENG, "zz_verif_store_engine_test.go")], "codec_chain.test", use_overlay=True)
+    if rc != 0:
+        raise RuntimeError("chain (store) engine build failed:\n" + log[-3000:])
+    st.chain_bin = binpath
+    cases, meta = [], []
+    cfgs = [[10, 20, 30, 40], [0, 0, 0, 0], [5, 5, 9, 2 ** 63]]
+    nb = 6 if quick else 60
+    for i in range(nb):
+        cfg = rng.choice(cfgs)
+        no = rng.choice([0, 1, cfg[0] - 1 if cfg[0] else 0, cfg[0], cfg[0] + 1, 15, 2 ** 40])
+        nrs = rng.choice([0, 1, 2, 3])
+        rs = [rand_receipt(rng, True) for _ in range(nrs)]
+        txs = []
+        for k in range(rng.choice([0, 1, 3]) if nrs == 0 else nrs):
+            t = rand_tx(rng)
+            t["Type"] = rng.randrange(0, 8)
+            txs.append(t)
+        c = {"kind": "B", "ChainID": ((3).to_bytes(4, "little") + b"\x01\x00aaa/dpos").hex(), "Prev": rbytes(rng, 32).hex(), "BlockNo": no,
+             "Timestamp": rint(rng, "i64"), "Confirms": rng.randrange(0, 5), "Coinbase": rng.choice([b"", rbytes(rng, 33)]).hex(),
+             "Consensus": rng.choice([b"", b"\x01\x02"]).hex(), "EmptyNotNil": rng.random() < 0.4, "ForgedHash": "",
+             "Txs": [json_tx(t) for t in txs], "Rs": [vs_receipt(r) for r in rs], "HasBloom": rng.random() < 0.5,
+             "BloomKeys": [rbytes(rng, 5).hex()], "Cfg": cfg, "CfgRead": None}
+        kind = "same"
+        if i % 3 == 1 and rs:
+            # restart with an edited configuration: V2 height moved across this block (incompatible) or not (compatible)
+            if rng.random() < 0.5:
+                c["CfgRead"] = [no + 1 if cfg[0] <= no else max(0, no), cfg[1] + no + 1, cfg[2] + no + 1, cfg[3] + no + 1]
+                c["CfgRead"] = sorted(min(x, 2 ** 63) for x in c["CfgRead"])
+                kind = "v2-moved-across"
+            else:
+                c["CfgRead"] = [cfg[0], cfg[1] + 7, cfg[2] + 7, cfg[3] + 7] if cfg[3] < 2 ** 62 else cfg
+                kind = "later-forks-moved"
+        if i % 3 == 2:
+            c["ForgedHash"] = rbytes(rng, 32).hex()
+            kind = "forged-hash-field"
+        cases.append(c)
+        meta.append((kind, rs, txs))
+    hfc = []
+    for cfg, stored, rd, best in [([10, 20, 30, 40], "", None, 25), ([10, 20, 30, 40], "", [10, 20, 30, 50], 35), ([10, 20, 30, 40], "", [10, 20, 30, 50], 45),
+                                  ([10, 20, 30, 50], '{"V2":10,"V3":20,"V4":30}', None, 45), ([10, 20, 30, 40], '{"V2":10,"V3":20,"V4":30,"V5":40,"V6":44}', None, 43),
+                                  ([10, 20, 30, 40], '{"V2":10,"V3":20,"V4":30,"V5":40,"V6":44}', None, 44), ([30, 20, 10, 40], "", None, 5),
+                                  ([0, 0, 0, 0], '{}', None, 0), ([1, 2, 3, 4], '{"V2":0}', None, 0)]:
+        hfc.append({"kind": "HF", "Cfg": cfg, "CfgRead": rd, "Best": best, "DbJSON": stored})
+    for _ in range(4 if quick else 200):
+        cfg = sorted(rng.randrange(0, 100) for _ in range(4))
+        if rng.random() < 0.2:
+            rng.shuffle(cfg)
+        keys = {"V%d" % (i + 2): (cfg[i] if rng.random() < 0.7 else rng.randrange(0, 100)) for i in range(4) if rng.random() < 0.8}
+        if rng.random() < 0.2:
+            keys["V6"] = rng.randrange(0, 100)
+        hfc.append({"kind": "HF", "Cfg": cfg, "CfgRead": None, "Best": rng.randrange(0, 120), "DbJSON": json.dumps(keys) if rng.random() < 0.7 else ""})
+    obs = run_engine(ctx, binpath, "TestVerifStoreEngine", cases + hfc, "store")
+    ritems, rsrc, gitems, gsrc = [], [], [], []
+    for c, (kind, rs, txs), o in zip(cases, meta, obs):
+        rep = {"scenario": kind, "case": {k: v for k, v in c.items() if k not in ("Rs", "Txs")}, "n_receipts": len(rs), "n_txs": len(txs),
+               "obs": {k: v for k, v in o.items() if k != "receipts"}}
+        st.nontrivial.add(("DB", kind, len(rs), len(txs), c["EmptyNotNil"], bool(o.get("v2_write"))))
+        if "panic" in o or "get_err" in o:
+            st.fail("C19:chaindb-block-roundtrip", "a block written to the chain DB could not be read back after a restart: %s" % (o.get("panic") or o.get("get_err")), rep)
+            continue
+        if not (o["same_bytes"] and o["same_hash_field"] and o["blockhash_is_key"] and o["block_unchanged_by_store"]):
+            st.fail("C19:chaindb-block-roundtrip", "a block read back from the chain DB after a restart differs from what was written", rep)
+        if not (o["txs_same"] and o["txidx_same"]):
+            st.fail("C19:chaindb-tx-roundtrip", "a transaction looked up through the tx index differs from what was written (or its index entry does)", rep)
+        if not o["recomputed_is_digest"]:
+            st.fail("C19:chaindb-header-changed", "the header read back no longer hashes to the identifier computed before storing", rep)
+        if kind == "forged-hash-field" and (o.get("found_under_digest") or not o["blockhash_is_key"]):
+            st.fail("C19:chaindb-forged-key", "unexpected key behaviour for a block with a foreign Hash field", rep)
+        if kind == "forged-hash-field":
+            st.aliasing_notes.add("chain DB files a block under its Hash FIELD and getBlock never recomputes the digest (F8, see C18/C05): "
+                                  "a block with a foreign Hash field is stored and read back under that field, nothing under its digest")
+        if rs:
+            v2w = c["Cfg"][0] <= c["BlockNo"]
+            cr = c["CfgRead"] or c["Cfg"]
+            v2r = cr[0] <= c["BlockNo"]
+            got = [vs_receipt_back(j) for j in o["receipts"]] if "receipts" in o else None
+            want = [store_view(r, v2w) for r in rs]
+            if v2w == v2r:
+                if got != want:
+                    st.fail("C19:chaindb-receipts-roundtrip", "receipts read back from the chain DB after a restart differ from what was written "
+                            "(same format version on both sides)", rep)
+                elif v2w and o.get("root_read") != o.get("root_written"):
+                    st.fail("C19:chaindb-receipts-root", "receipts root differs after the chain DB round trip", rep)
+                if not v2w and any(r["feedeleg"] or r["gas"] for r in rs) and got == want:
+                    st.fail("C19:F17-v1-receipt-drops-feedelegation-gasused", "V1-era receipts stored in the chain DB read back without "
+                            "FeeDelegation/GasUsed", rep)
+            bw = "(Some %s)" % cb(hb(o["bloom_written"])) if "bloom_written" in o else "None"
+            br = "(Some %s)" % cb(hb(o["bloom_read"])) if "bloom_read" in o else "None"
+            dec = "None" if got is None else "(Some (%s, [%s]))" % (br, "; ".join(coq_receipt(r) for r in got))
+            ritems.append("([%s], [%s], %d, %s, [%s], %s)" % (";".join(map(str, c["Cfg"])), ";".join(map(str, cr)), c["BlockNo"], bw,
+                                                             "; ".join(coq_receipt(r) for r in rs), dec))
+            rsrc.append(rep)
+            # getReceipt index test
+            n = len(rs)
+            for i in range(n + 1):
+                cls = 2 if ("getreceipt_%d_of_%d_panic" % (i, n)) in o else (1 if ("getreceipt_%d_of_%d_err" % (i, n)) in o else 0)
+                if v2w != v2r:
+                    continue      # decoded with the other format version: garbage / slice panics are expected (see db_receipts)
+                gitems.append("(%d%%nat, %d%%Z, %d)" % (n, i, cls))
+                gsrc.append(rep)
+                if cls == 2:
+                    st.fail("C19:getreceipt-index-equal-length-panics", "ChainDB.getReceipt(idx = number of receipts) panics "
+                            "(index out of range): the bound test is `idx > len`", rep)
+            if "getreceipt_wrong" in o:
+                st.fail("C19:chaindb-getreceipt-wrong", "getReceipt returned the receipt of another index", rep)
+    hitems, hsrc = [], []
+    for c, o in zip(hfc, obs[len(cases):]):
+        rep = {"case": c, "obs": o}
+        cr = c["CfgRead"] or c["Cfg"]
+        stored = json.loads(c["DbJSON"]) if c["DbJSON"] else {"V%d" % (i + 2): c["Cfg"][i] for i in range(4)}
+        st.nontrivial.add(("HFDB", bool(c["DbJSON"]), len(stored), o.get("compat")))
+        if "panic" in o or o.get("db_nil"):
+            st.fail("C19:chaindb-hardfork-read", "stored hardfork configuration could not be read back", rep)
+            continue
+        if not c["DbJSON"] and c["CfgRead"] is None and all(c["Cfg"][i] <= c["Cfg"][i + 1] for i in range(3)) and not o["compat"]:
+            st.fail("C19:hardfork-self-incompatible", "a validated configuration is reported incompatible with what it wrote itself", rep)
+        if o.get("compat") and o["versions_read_written"][4] != o["versions_read_written"][5] and not c["DbJSON"]:
+            st.fail("C19:compat-different-version", "restart accepted but the version at the best block differs from the one of the writing configuration", rep)
+        if not c["DbJSON"] or all(k in ("V2", "V3", "V4", "V5", "V6") for k in stored):
+            sdb = "[" + ";".join("(%d, %d)" % (int(k[1:]), v) for k, v in sorted(stored.items())) + "]"
+            hs = [o["db"].get("V%d" % (i + 2), 0) for i in range(4)]
+            hitems.append("(%s, [%s], %d, [%s], %s)" % (sdb, ";".join(map(str, cr)), c["Best"], ";".join(map(str, hs)), cbool(bool(o.get("compat")))))
+            hsrc.append(rep)
+    st.add_family("db_receipts", "hf_config * hf_config * N * option bytes * list receipt * option (option bytes * list receipt)",
+                  "db_receipts_case_ok", ritems, rsrc)
+    st.add_family("db_get_receipt", "nat * Z * N",
+                  "(fun c : nat * Z * N => let '(n, i, cls) := c in let rs := repeat receipt_f17 n in "
+                  "(get_receipt_class (get_receipt rs i) =? cls) || (get_receipt_class (get_receipt_fixed rs i) =? cls))",
+                  gitems, gsrc)
+    st.add_family("db_hardfork_restart", "hf_db * hf_config * N * list N * bool", "hardfork_restart_case_ok", hitems, hsrc)
+    st.evals += len(cases)
+    st.dist["db_blocks_txs_observed"] = len(cases)
+    st.rules.append("chain DB: blocks (nil vs empty-non-nil byte fields, foreign Hash field), their txs through the tx index, receipts of 0..3 "
+                    "entries with/without bloom at heights around the V2 fork, written by the real ChainDB into a badger DB, DB closed and "
+                    "re-opened, read with the same / a compatible / an incompatible configuration; getReceipt for every index 0..len; "
+                    "hardfork configuration stored by WriteHardfork or as raw JSON (missing / extra / changed keys) and read by Hardfork+CheckCompatibility")
+
+
+EXTRA_FAMILIES = [corpus_family, receipts_family, merkle_family, hardfork_family, txsign_family, chainid_family, txroot_family, genesis_family, genesis_store_family, store_family, forkboundary_family]
+EXTRA_TARGETS = ["Common/Sha256.vo", "Common/Lit.vo", "Codec/Receipt.vo", "Codec/Merkle.vo", "Codec/Hardfork.vo", "Codec/TxRoot.vo", "Codec/GenesisStore.vo", "Codec/ChainStore.vo"]  # evaluated models that no theorem depends on
 
 IMPORTS = """From Coq Require Import NArith ZArith List Bool String Uint63.
-From Verif Require Import Common.Bytes Common.Lit Common.Sha256 Codec.Fields Codec.Digest Codec.ChainId Codec.Merkle Codec.TxRoot Codec.Receipt Codec.Hardfork Codec.GenesisStore %s.
+From Verif Require Import Common.Bytes Common.Lit Common.Sha256 Codec.Fields Codec.Digest Codec.ChainId Codec.Merkle Codec.TxRoot Codec.Receipt Codec.Hardfork Codec.GenesisStore Codec.ChainStore Codec.ReceiptProofs %s.
 Import ListNotations.
 Open Scope N_scope.
 """
